@@ -156,14 +156,26 @@ func (r *Refs) RenameBranch(rootGoitPath, curBranchName, newBranchName string) e
 	}
 
 	// rename branch
-	r.Heads[curNum].Name = newBranchName
+	b := r.Heads[curNum]
+	b.Name = newBranchName
 	sort.Slice(r.Heads, func(i, j int) bool { return r.Heads[i].Name < r.Heads[j].Name })
 
-	// rename file
-	oldPath := filepath.Join(rootGoitPath, "refs", "heads", curBranchName)
-	newPath := filepath.Join(rootGoitPath, "refs", "heads", newBranchName)
-	if err := os.Rename(oldPath, newPath); err != nil {
-		return fmt.Errorf("fail to rename file: %w", err)
+	// the new name is written next to the old one, which RemoveRenamedBranch removes once HEAD names
+	// the new branch: HEAD has to refer to an existing branch file at every moment in between
+	if err := b.write(rootGoitPath); err != nil {
+		return fmt.Errorf("fail to rename branch: %w", err)
+	}
+
+	return nil
+}
+
+// RemoveRenamedBranch removes the old name of a branch renamed by RenameBranch
+func (r *Refs) RemoveRenamedBranch(rootGoitPath, oldBranchName string) error {
+	if r.getBranchPos(oldBranchName) != NewBranchFlag {
+		return fmt.Errorf("branch '%s' is still in use", oldBranchName)
+	}
+	if err := os.Remove(filepath.Join(rootGoitPath, "refs", "heads", oldBranchName)); err != nil {
+		return fmt.Errorf("fail to delete file: %w", err)
 	}
 
 	return nil
